@@ -24,6 +24,8 @@ T = "T"
 opt: Literal['adam', 'sgd'] = 'adam'
 depth: int = 3
 rate = 0.5
+shuffle: bool = True
+seed: Optional[int] = 11
 choices = ("sgd", "adam")
 sizes = [3, 1, 2]
 
@@ -101,6 +103,11 @@ class C14(Prop):
             ok = kind_of(resolve(out_tree.body, ol)[0][0])
             cands = [l for l in in_locs if (kind_of(resolve(in_tree.body, l)[0][0]) == "arg") == (ok == "arg") or (ok == "arg" and kind_of(resolve(in_tree.body, l)[0][0]) == "annassign")]
             il = r.choice(cands)
+            # a namesake: the input binds the very name the addressed output argument has (`shuffle: bool = True` ->
+            # `run.shuffle`), half of the time when there is one
+            same = [l for l in cands if l[-1] == ol[-1]]
+            if same and r.random() < 0.5:
+                il = r.choice(same)
             if ol not in [p[1] for p in pairs]:
                 pairs.append([il, ol])
         bad = r.random() < 0.15
@@ -223,11 +230,11 @@ class C14(Prop):
             fails.append({"what": "output file no longer parses", "after": o_after[:500], "_class": cls})
             return fails
         # every node that was not addressed keeps an identical syntax tree
-        addressed_stmts, addressed_fns = set(), set()
+        addressed_stmts, addressed_fns = set(), {}
         for il, ol in c["pairs"]:
             node, path = resolve(out_tree.body, ol)[0]
             if isinstance(node, ast.arg):
-                addressed_fns.add(tuple(path[:-1]))
+                addressed_fns.setdefault(tuple(path[:-1]), set()).add(tuple(path[-1]))
             else:
                 addressed_stmts.add(tuple(path))
         want_dumps = frame_dumps(out_tree, addressed_stmts, addressed_fns)
@@ -274,7 +281,19 @@ def frame_dumps(tree, skip_stmts, skip_fns, prefix=()):
             if p in skip_stmts:
                 out.append("<addressed>")
             elif p in skip_fns:
-                out.append("def %s: %s" % (stmt.name, [ast.dump(s) for s in stmt.body]))
+                # ... and every argument that was not addressed, with its annotation and its own default
+                a = stmt.args
+                others = []
+                npos, ndef = len(a.args), len(a.defaults)
+                for j, arg in enumerate(a.args):
+                    if ("args", j) not in skip_fns[p]:
+                        d = a.defaults[j - (npos - ndef)] if j - (npos - ndef) >= 0 else None
+                        others.append(("args", j, ast.dump(arg), None if d is None else ast.dump(d)))
+                for j, arg in enumerate(a.kwonlyargs):
+                    if ("kwonlyargs", j) not in skip_fns[p]:
+                        d = a.kw_defaults[j] if j < len(a.kw_defaults) else None
+                        others.append(("kwonlyargs", j, ast.dump(arg), None if d is None else ast.dump(d)))
+                out.append("def %s: %s %s" % (stmt.name, [ast.dump(s) for s in stmt.body], others))
             elif isinstance(stmt, ast.ClassDef):
                 out.append("class %s:" % stmt.name)
                 walk(stmt.body, p)
